@@ -103,6 +103,10 @@ UNI = [
     ("one target writes the composed name, another reads the decomposed one, which is a missing source", [("P", [], [NFC]), ("Q", [NFD], ["q.out"])], [], "unres"),
     ("upper/lower case variants are different files", [("P", [], ["Data.txt"]), ("Q", [], ["data.txt"])], [], None),
     ("a name with a trailing blank is a different file", [("T", ["in.txt "], ["t.out"])], ["in.txt"], "unres"),
+    ("a consumer names the same produced file twice (in two named groups)", [("P", [], ["idx"]), ("Q", {"index": "idx", "all": ["idx", "reads"]}, ["q.out"])], ["reads"], None),
+    ("a consumer names the same produced file twice in two spellings, and a third target consumes its output", [("P", [], ["idx"]), ("Q", ["idx", "./idx"], ["q.out"]), ("R", ["q.out"], ["r.out"])], [], None),
+    ("a source file named twice", [("T", ["ref", "ref"], ["t.out"])], ["ref"], None),
+    ("a real 2-cycle beside a duplicate mention is still a cycle", [("P", ["q.out"], ["idx"]), ("Q", ["idx", "idx"], ["q.out"])], [], "cyclic"),
 ]
 
 
@@ -379,7 +383,7 @@ QUERIES = [
     {"name": "Q4t", "fn": q4t, "shards": [{}], "timeout": 120,
      "bound": "one target, one source file, present with an unbounded symbolic integer modification time (zero, negative, far future) or missing"},
     {"name": "Q4u", "fn": q4u, "shards": [{}], "timeout": 120,
-     "bound": "catalogue of %d small workflows whose file names differ only in Unicode normalisation form, letter case or a trailing blank (a byte-exact file system: they are different files)" % len(UNI)},
+     "bound": "catalogue of %d small workflows: file names that differ only in Unicode normalisation form, letter case or a trailing blank (a byte-exact file system: they are different files); files mentioned twice by one consumer" % len(UNI)},
     {"name": "Q4b", "fn": q4b, "shards": {"quick": [{"be": "slurm"}], "thorough": [{"be": b} for b in ("slurm", "sge", "lsf", "local")]}, "timeout": {"quick": 900, "thorough": 1200},
      "bound": "7 ill-formed workflows (two producers across spellings, missing source, 2-cycle, self-loop, 3-cycle not reachable from the first target, self-loop / 2-cycle beside a healthy chain of 4) next to a healthy target x "
               "{run, run --dry-run, status, clean --all -f, touch, cancel -f, info} x a tracked running job present or not"},
